@@ -56,6 +56,7 @@ MCNext == \/ Create \/ Load(CanonView(cfg)) \/ Verify \/ VerifyFlawed
           \/ Discard
           \/ \E ok \in BOOLEAN, heq \in BOOLEAN : LoadT(ok, heq)
           \/ \E res \in {"intact", "detected"} : VerifyT(res)
+          \/ \E ok \in BOOLEAN : CombineT(ok)
 MCSpec == MCInit /\ [][MCNext]_vars
 \* the honest artifacts satisfy the consistency predicates (guards against unsatisfiable ones): loading never blocks
 CanonAccepted == /\ ViewOK(cfg, CanonView(cfg))
